@@ -21,7 +21,7 @@ import shutil
 import subprocess
 import time
 
-from vlib.common import (Reporter, MachineryError, REPO, VERIF, workdir, pmap, run_tool, build_tool, default_configs, sha)
+from vlib.common import (Reporter, MachineryError, VERIF, workdir, pmap, run_tool, build_tool, default_configs, sha)
 
 GRAMMAR_VERSION = 1
 I32_MIN, I32_MAX = -2147483648, 2147483647
@@ -135,6 +135,7 @@ class Batch:
         self.judgements = []  # (name, backend, direction, variant, ok, expected, observed)
         self.forms = {}
         self.nb_headers_identical = None
+        self.generated = 0
         self.timing = {}
 
 
@@ -800,7 +801,7 @@ def _judge_cpp(add, name, be, o, rv):
 # one batch end to end
 
 
-def process_batch(b, keep=False):
+def process_batch(b, keep=False, backends=None):
     t0 = time.time()
     os.makedirs(b.dir, exist_ok=True)
     rust_oracle(b)
@@ -808,7 +809,11 @@ def process_batch(b, keep=False):
     outs, gens = {}, {}
     for be in BACKENDS6:
         t = time.time()
-        outs[be], gens[be] = gen_backend(b, be)
+        if backends is not None and be not in backends:
+            outs[be], gens[be] = None, []
+        else:
+            outs[be], gens[be] = gen_backend(b, be)
+            b.generated += len(gens[be])
         b.timing["tool-" + be] = time.time() - t
     try:
         t = time.time()
@@ -885,15 +890,12 @@ def failures_of(b):
 # ---------------------------------------------------------------------------------------------
 
 
-def run(tier, only=None):
+def run(tier):
     rep = Reporter("C11", tier, "exploration")
     build_tool()
     wd = workdir("C11")
     t_start = time.time()
-    if only is None:
-        valid, invalid, raw = enum_space(tier)
-    else:
-        valid, invalid, raw = list(only), [], len(only)
+    valid, invalid, raw = enum_space(tier)
     named = [("E%d" % k, spec) for k, spec in enumerate(valid)]
     specs = dict(named)
     n_dup = sum(1 for s in invalid if why_invalid(s) == "duplicate")
@@ -905,18 +907,16 @@ def run(tier, only=None):
 
     # the validity filter itself is checked against rustc on the small end of the space: every rejected (duplicate value) n<=3 enum must be
     # rejected by rustc too (accepted ones are compiled by the oracle anyway)
-    inv_checked = 0
-    if only is None:
-        small = [s for s in invalid if len(s) <= 3 and why_invalid(s) == "duplicate"]
-        src = "\n".join("#[repr(C)] " + enum_text("X%d" % i, s) for i, s in enumerate(small)) + "\nfn main() {}\n"
-        p = os.path.join(wd, "invalid.rs")
-        open(p, "w").write(src)
-        r = _run(["rustc", "--edition", "2021", "--error-format=short", "--emit=metadata", "-o", os.path.join(wd, "invalid.rmeta"), p], cwd=wd)
-        errlines = set(int(m.group(1)) for m in re.finditer(r"invalid\.rs:(\d+):\d+: error", r.stderr))
-        missing = [small[i] for i in range(len(small)) if (i + 1) not in errlines]
-        if r.returncode == 0 or missing:
-            raise MachineryError("validity filter too strict: rustc accepts %s" % [enum_text("X", s) for s in missing[:5]])
-        inv_checked = len(small)
+    small = [s for s in invalid if len(s) <= 3 and why_invalid(s) == "duplicate"]
+    src = "\n".join("#[repr(C)] " + enum_text("X%d" % i, s) for i, s in enumerate(small)) + "\nfn main() {}\n"
+    p = os.path.join(wd, "invalid.rs")
+    open(p, "w").write(src)
+    r = _run(["rustc", "--edition", "2021", "--error-format=short", "--emit=metadata", "-o", os.path.join(wd, "invalid.rmeta"), p], cwd=wd)
+    errlines = set(int(m.group(1)) for m in re.finditer(r"invalid\.rs:(\d+):\d+: error", r.stderr))
+    missing = [small[i] for i in range(len(small)) if (i + 1) not in errlines]
+    if r.returncode == 0 or missing:
+        raise MachineryError("validity filter too strict: rustc accepts %s" % [enum_text("X", s) for s in missing[:5]])
+    inv_checked = len(small)
 
     bs = min(BATCH_MAX, max(8, -(-len(named) // 16)))
     batches = [Batch(i, named[k:k + bs], wd) for i, k in enumerate(range(0, len(named), bs))]
@@ -951,14 +951,14 @@ def run(tier, only=None):
                 key = "C11|%s|%s|%s" % (be, direction, shape_class(specs[name]))
                 c = classes.setdefault(key, {"backend": be, "direction": direction, "enums": []})
                 c["enums"].append((int(name[1:]), name, fl, b))
-    for key in sorted(classes):
+    def confirm(key):
         c = classes[key]
         c["enums"].sort(key=lambda t: t[0])
-        _, name, fl, b = c["enums"][0]
+        _, name, fl, _b = c["enums"][0]
         spec = specs[name]
         # determinism + packing independence: the minimal enum alone, in a module of its own, must fail the same way
         solo = Batch(0, [("E0", spec)], os.path.join(wd, "confirm-" + sha(key)))
-        process_batch(solo, keep=True)
+        process_batch(solo, keep=True, backends={"cpp", "nanobind"} if c["backend"] == "nanobind" else {c["backend"]})
         sf = failures_of(solo).get((c["backend"], c["direction"]), {}).get("E0")
         if sf != fl:
             raise MachineryError("failure of %s for %s not reproduced identically when run alone: packed=%s alone=%s" % (
@@ -967,16 +967,19 @@ def run(tier, only=None):
             "enum": enum_text("E0", spec), "spec": list(spec), "rustc_values": solo.rust["E0"], "backend": c["backend"],
             "direction": c["direction"], "shape_class": shape_class(spec), "failing": sf,
             "input_file": bridge_text([("E0", spec)]),
-            "command": "diplomat-tool %s <out> --entry lib.rs %s" % ("nanobind" if c["backend"] == "nanobind" else c["backend"],
-                                                                      " ".join("--config " + x for x in default_configs(c["backend"]))),
+            "command": "diplomat-tool %s <out> --entry lib.rs -s %s" % (c["backend"], " ".join("--config " + x for x in default_configs(c["backend"]))),
             "generated": snippet(c["backend"], "E0", solo.dir),
             "failing_enums_in_class": len(c["enums"]),
             "more_examples": [enum_text(n, specs[n]) for _, n, _, _ in c["enums"][1:6]],
         }
         f0 = sf[0]
-        rep.violation(key, witness, "%s: %s of %s.%s: expected %s, observed %s (%d enums of this shape fail)" % (
-            c["backend"], c["direction"], enum_text("E", spec), f0["variant"], f0["expected"], json.dumps(f0["observed"]), len(c["enums"])))
+        what = "%s: %s of %s.%s: expected %s, observed %s (%d enums of this shape fail)" % (
+            c["backend"], c["direction"], enum_text("E", spec), f0["variant"], f0["expected"], json.dumps(f0["observed"]), len(c["enums"]))
         shutil.rmtree(solo.dir, ignore_errors=True)
+        return key, witness, what
+
+    for key, witness, what in pmap(confirm, sorted(classes)):
+        rep.violation(key, witness, what)
 
     rust_vectors = set()
     samples = []
@@ -1001,7 +1004,7 @@ def run(tier, only=None):
 
     # determinism guard across runs: same tier + same grammar => same space
     prev = os.path.join(VERIF, "evidence", "C11.json")
-    if only is None and os.path.exists(prev):
+    if os.path.exists(prev):
         try:
             pc = json.load(open(prev))
             pcov = pc.get("coverage", {})
@@ -1016,7 +1019,8 @@ def run(tier, only=None):
         by_n[len(s)] = by_n.get(len(s), 0) + 1
     cov = {
         "states": len(named),
-        "transitions": len(done) * 7,
+        "transitions": sum(b.generated for b in done),
+        "transitions_rule": "(enum, backend) artefacts generated by the real diplomat-tool and observed",
         "evaluations": evaluations,
         "evaluations_per_backend": per_backend,
         "distinct_nontrivial": sum(1 for s in valid if nontrivial(s)),
@@ -1028,7 +1032,7 @@ def run(tier, only=None):
         "distinct_outcomes_rule": "distinct discriminant vectors printed by the rustc oracle; rendering forms seen per backend in `forms`",
         "forms": forms,
         "bound": {"sizes": {str(n): {"alphabet": "all-implicit only" if not a else ["implicit"] + a, "valid_enums": by_n.get(n, 0)}
-                            for n, a in tiers(tier)} if only is None else "replay",
+                            for n, a in tiers(tier)},
                   "raw": raw, "rustc_valid": len(valid), "skipped_duplicate_value": n_dup, "skipped_outside_i32": len(invalid) - n_dup,
                   "duplicates_confirmed_rejected_by_rustc(n<=3)": inv_checked,
                   "use_sites": "method f(self, o: E) -> E on every enum: self, parameter, return value",
@@ -1042,10 +1046,8 @@ def run(tier, only=None):
         "cpu_seconds_by_step": timing,
         "samples": samples,
     }
-    if len(forms) < 2 and only is None:
+    if len(forms) < 2:
         cov["distinct_outcomes"] = min(cov["distinct_outcomes"], 1)
-    if only is not None:
-        return rep, cov
     rc = rep.finish(cov, [
         "Rust side: the oracle compiles the enums with `#[repr(C)] #[derive(Clone, Copy)]`, which is what the proc macro adds "
         "(macro/src/lib.rs Item::Enum arm); the numeric value of a variant does not depend on the repr as long as rustc accepts it",
